@@ -12,15 +12,17 @@ PORTABLE = ['c01', 'c02', 'c04', 'c06', 'c09', 'c07', 'c08', 'c10']
 
 def main(tier, seed):
     res = Result('C14', tier, 'proof', seed)
-    targets = ['be'] + (['be32'] if tier == 'thorough' else [])
+    # quick: the 32-bit big-endian target (ILP32: 32-bit long, size_t and pointers) for the field accessors, the CAN
+    # builders and the VSS finaliser only; thorough: everything on both targets
+    targets = [('be', PORTABLE), ('be32', PORTABLE if tier == 'thorough' else ['c01', 'c02', 'c04', 'c06', 'c09'])]
     inner = 'thorough' if tier == 'thorough' else 'quick'
-    for tg in targets:
+    for tg, names in targets:
         ctx = Ctx(tg)
         if not ctx.mod.big_endian:
             from ..report import Broken
             raise Broken('target %s is not big-endian' % tg)
         res.count('big-endian targets analysed')
-        for name in PORTABLE:
+        for name in names:
             try:
                 m = importlib.import_module('verif.checks.' + name)
             except ImportError:
@@ -32,6 +34,6 @@ def main(tier, seed):
             for v in res.violations[before:]:
                 v['text'] = '[%s host, %s] %s' % (ctx.mod.triple, name.upper(), v['text'])
     res.rule = ('every obligation of C01/C02/C04/C06/C09 (+C07/C08/C10) re-evaluated on IR for powerpc64 (big-endian, 64-bit; '
-                'thorough adds mips, big-endian, 32-bit pointers); the little-endian results are the C01.. checks themselves')
+                'mips - big-endian, ILP32 - for C01/C02/C04/C06/C09, thorough for all); the little-endian results are the C01.. checks themselves')
     res.assumptions.append('powerpc64 (and mips) IR is representative of big-endian hosts; libc headers are replaced by declarations in stubs/libc')
     return res
